@@ -22,12 +22,14 @@ TRUSTED = G.TRUSTED
 ALLOWED_AXIOMS = []
 LEVEL_TEXT = ('proof (full on the model): single_flight, no_reinvoke_after_success, success_unique for all event lists '
               'accepted by the model Cache.step (inductive invariants CacheInv.Inv, CacheInv2.Inv2), and ok_C01_sound(_prefix): '
-              'every accepted trace satisfies the trace monitor; model tied to the code by differential correspondence')
+              'every accepted trace satisfies the trace monitor; ok_C01_implies_no_overlap / _no_reinvoke / _ret_is_success: an accepted '
+              'trace (of the model OR of the implementation) satisfies the property read on the trace alone; '
+              'single_flight_refuted_without_fix1 documents defect F1; model tied to the code by differential correspondence')
 LEVEL_NOTE = ('All five theorems closed under the global context; any number of loops / callers / keys / steps.  "In progress '
               'on running loops" is the model status IActive (an invocation left pending on a stopped loop is IAband from that '
               'moment, as the property says); the retaining cache mapping is the model having no eviction event (eviction is '
-              'C14).  Not proved: the converse of monitor soundness (ok_C01 tr = true implies the Prop about tr) - the monitor '
-              'is evaluated on every observed trace instead.')
+              'C14).  The converse theorems (CacheMonSpec.v) are about the monitor alone, so "the monitor accepted the '
+              'implementation\'s trace" implies the property on that trace without going through the model.')
 TECHNIQUE = G.TECHNIQUE
 
 corpus = G.corpus
